@@ -270,6 +270,13 @@ func TestCheck(t *testing.T) {
 		os.Exit(run.Finish())
 	}
 	defer k.Close()
+	if *report.FlagReplay != "" {
+		if v, err := report.LoadReplay(*report.FlagReplay); err == nil && strings.HasPrefix(v.Part, "sched:") {
+			rc := replaySched(run, k, v)
+			os.RemoveAll(dir)
+			os.Exit(rc)
+		}
+	}
 
 	depth := 3
 	if run.Thorough() {
@@ -378,7 +385,10 @@ func TestCheck(t *testing.T) {
 			}
 		}
 	}
-	rec(nil)
+	if run.WantPart("antispoof: manager sequences") {
+		rec(nil)
+	}
+	runSched(run, k)
 	run.AddEvals(evals, nontrivial)
 	run.AddPart(report.Part{Name: "antispoof: manager sequences x frame product (in-kernel)", Engine: "C:kernel-test-run", Bound: fmt.Sprintf("op sequences depth<=%d over %d operations", depth, len(all)), States: seqs, Transitions: evals, Exhaustive: true, Note: fmt.Sprintf("%d truncated-header frames refused by the kernel test-run facility (EINVAL) and skipped", refused)})
 	run.Sample(map[string]any{"ops": func() []string {
